@@ -234,6 +234,10 @@ class Obj:
             return int(round(float(o.tensor().reshape(-1)[0])))
         return int(round(float(o.params.detach().reshape(-1).median()) / 0.125))  # median: a grid change resamples a dense field (padding at the border)
 
+    # a grid change RESAMPLES a dense displacement field: keep the shifts of its grid small so that the field stays inside
+    def bstep(self) -> float:
+        return 0.125 if self.kind.startswith("DDF") else 1.0
+
     def set_B(self, o, v):
         from deepali.core.grid import Grid
 
@@ -241,7 +245,7 @@ class Obj:
         if k in ("Grid", "Cube"):
             o.center_((float(v), 0.0))
         else:
-            o.grid_(Grid(size=(5, 4), center=(float(v), 0.0)))
+            o.grid_(Grid(size=(5, 4), center=(float(v) * self.bstep(), 0.0)))
 
     def with_B(self, o, v):  # accessor: NEW object with B changed
         from deepali.core.grid import Grid
@@ -249,12 +253,12 @@ class Obj:
         k = self.kind
         if k in ("Grid", "Cube"):
             return o.center((float(v), 0.0))
-        return o.grid(Grid(size=(5, 4), center=(float(v), 0.0)))
+        return o.grid(Grid(size=(5, 4), center=(float(v) * self.bstep(), 0.0)))
 
     def get_B(self, o) -> int:
         k = self.kind
         c = o.center() if k in ("Grid", "Cube") else o.grid().center()
-        return int(round(float(c[0])))
+        return int(round(float(c[0]) / self.bstep()))
 
 
 def replay_history(ctx: Ctx, kind: str, hist: List[dict]) -> None:
